@@ -22,7 +22,8 @@ RULE = (
     "gradients (beyond LRU capacity) through the caches, plus ADDRESS-REUSE steps: N (a variant of M) lives, acts and "
     "dies, and the nodes of M are then given the addresses (id()) of N's dead nodes - the allocator's choice is an "
     "environment answer decided by the harness through a module-global id seam, only addresses verified dead are "
-    "handed out.  Every execution runs in a forked child of a pristine "
+    "handed out; and SHARED-DATA steps: the earlier model was built from the same user-owned coefficient array objects, "
+    "which are refreshed in place before M is built.  Every execution runs in a forked child of a pristine "
     "parent (no optyx object ever built in it) and its observations on M (values, symbolic and compiled "
     "derivatives, degree, variables, bounds, solve results under auto and SLSQP) are compared for exact equality "
     "with M observed alone in such a child.  transitions = prefix actions + observations executed on the real "
@@ -36,12 +37,25 @@ ASSUMPTIONS = [
 VARIANTS = ("same", "bounds", "pvalue", "data", "size", "domain")
 
 
-def model_builders():
+def model_builders(shared=None):
+    """shared: a dict of user-owned coefficient arrays that live across the models of one execution - a rolling-window
+    loop refreshes the SAME ndarray object in place (cov[:] = new_cov) before it builds the next model."""
     import optyx
     from optyx import Variable, VectorVariable, MatrixVariable, Parameter, Problem
 
     def alt(variant, key, a, b):
         return b if variant == key else a
+
+    def data(key, values):
+        values = np.array(values, dtype=float)
+        if shared is None:
+            return values
+        a = shared.get(key)
+        if a is None or a.shape != values.shape:
+            a = shared[key] = values.copy()
+        else:
+            a[...] = values
+        return a
 
     def m_scalar(v=None):
         x = Variable("x", lb=alt(v, "bounds", 0.0, -3.0), ub=alt(v, "bounds", 5.0, 1.0), domain=alt(v, "domain", "continuous", "integer"))
@@ -53,7 +67,7 @@ def model_builders():
     def m_lp(v=None):
         n = alt(v, "size", 3, 4)
         w = VectorVariable("v", n, lb=alt(v, "bounds", 0.0, 1.0), ub=2.0, domain=alt(v, "domain", "continuous", "integer"))
-        c = np.arange(1.0, n + 1) * alt(v, "data", 1.0, -2.0)
+        c = data("lp.c", np.arange(1.0, n + 1) * alt(v, "data", 1.0, -2.0))
         e = c @ w
         con = w.sum() >= 1
         return dict(e=e, cons=[con], vars=list(w), P=Problem().minimize(e).subject_to(con), roots=[w[0]])
@@ -61,15 +75,16 @@ def model_builders():
     def m_qp(v=None):
         n = alt(v, "size", 3, 2)
         w = VectorVariable("v", n, lb=alt(v, "bounds", -5.0, 0.5), ub=5.0)
-        c = np.arange(1.0, n + 1) * alt(v, "data", 1.0, 0.25)
+        c = data("qp.c", np.arange(1.0, n + 1) * alt(v, "data", 1.0, 0.25))
         e = w.dot(w) - c @ w
         return dict(e=e, cons=[], vars=list(w), P=Problem().minimize(e), roots=[w[0]])
 
     def m_qform(v=None):
         w = VectorVariable("v", 3, lb=alt(v, "bounds", -4.0, 0.0), ub=4.0)
-        Q = np.array([[2.0, 0.5, 0.0], [0.5, 1.0, 0.25], [0.0, 0.25, 3.0]]) * alt(v, "data", 1.0, 2.0)
+        Q = data("qform.Q", np.array([[2.0, 0.5, 0.0], [0.5, 1.0, 0.25], [0.0, 0.25, 3.0]]) * alt(v, "data", 1.0, 2.0)
+                 + (np.array([[0.0, 0.3, 0.0], [-0.3, 0.0, 0.0], [0.0, 0.0, 0.0]]) if v == "data" else 0.0))
         e = optyx.quadratic_form(w, Q) - 2 * w.sum()
-        con = (np.array([1.0, 1.0, alt(v, "data", 1.0, -1.0)]) @ w) <= 2
+        con = (data("qform.a", [1.0, 1.0, alt(v, "data", 1.0, -1.0)]) @ w) <= 2
         return dict(e=e, cons=[con], vars=list(w), P=Problem().minimize(e).subject_to(con), roots=[w[1]])
 
     def m_param_gradient(v=None):
@@ -116,7 +131,7 @@ def model_builders():
 
     def m_norm(v=None):
         w = VectorVariable("v", 3, lb=alt(v, "bounds", 0.25, 1.0), ub=4.0)
-        t = np.array([1.0, 2.0, 0.5]) * alt(v, "data", 1.0, 3.0)
+        t = data("norm.t", np.array([1.0, 2.0, 0.5]) * alt(v, "data", 1.0, 3.0))
         e = optyx.core.vectors.norm(w - t, 2) + 0.5 * optyx.core.vectors.norm(w, 1)
         return dict(e=e, cons=[], vars=list(w), P=Problem().minimize(e), roots=[w[0]])
 
@@ -147,7 +162,19 @@ def model_builders():
         con = x[0] + x[1] + y >= 2.5
         return dict(e=e, cons=[con], vars=[x[0], x[1], y], P=Problem().minimize(e).subject_to(con), roots=[x[0]])
 
+    def m_large(v=None):
+        # more variables than optyx's large-problem threshold, from TWO containers (the general variable-collection path)
+        n = alt(v, "size", 600, 550)
+        x = VectorVariable("x", n, lb=alt(v, "bounds", 0.0, 2.0), ub=alt(v, "bounds", 1.0, 3.0), domain=alt(v, "domain", "continuous", "integer"))
+        y = VectorVariable("y", n, lb=alt(v, "bounds", 0.0, 2.0), ub=alt(v, "bounds", 1.0, 3.0))
+        k = alt(v, "data", 2.0, -1.0)
+        e = x.sum() + k * y.sum()
+        con = x[0] + y[1] >= 1
+        return dict(e=e, cons=[con], vars=list(x) + list(y), P=Problem().minimize(e).subject_to(con), roots=[x[0]],
+                    no_hessian=True, lean=True)
+
     return {
+        "large-two-containers": m_large,
         "bare-power": m_bare_power,
         "views": m_views,
         "scalar-nlp": m_scalar, "lp": m_lp, "vector-qp": m_qp, "quadratic-form": m_qform,
@@ -324,7 +351,7 @@ def observe(built):
         P = built["P"]
         rec("variables", lambda: [v.name for v in P.variables])
         rec("bounds", lambda: [tuple(b) for b in P.get_bounds()])
-        for m in ("auto", "SLSQP"):
+        for m in ("auto",) if built.get("lean") else ("auto", "SLSQP"):
             def solve(m=m):
                 s = P.solve(**({} if m == "auto" else {"method": m}))
                 return (s.status.value, None if s.objective_value is None else repr(float(s.objective_value)),
@@ -337,7 +364,8 @@ def execute(model, prefix):
     """Runs inside the forked child: the adversarial prefix, then the observation of M."""
     import gc
 
-    B = model_builders()
+    B = model_builders(shared={} if any(step[0] == "shared" for step in prefix) else None)
+    prefix = tuple(("adv",) + tuple(step[1:]) if step[0] == "shared" else step for step in prefix)
     seam = None
     dead_ids = []
     for step in prefix:
@@ -378,11 +406,16 @@ def execute(model, prefix):
     return observe(bm)
 
 
+LEAN_MODELS = {"large-two-containers"}
+
+
 def menu(model=None):
     variants = VARIANTS + (("view",) if model == "views" else ()) + (("dense",) if model == "bare-power" else ())
     m = [("adv", v, a) for v in variants for a in ACTIONS]
     m += [("flood", "compiles"), ("flood", "gradients")]
     m += [("reuse", v, a) for v in VARIANTS for a in REUSE_ACTIONS]
+    # the earlier model was built from the SAME coefficient array objects, refreshed in place before M is built
+    m += [("shared", v, a) for v in ("data", "same") for a in ("compile", "gradient", "solve-auto", "solve-SLSQP")]
     return m
 
 
@@ -393,11 +426,16 @@ def shards(tier, seed):
 def histories(tier, model=None):
     M = menu(model)
     yield ()
+    if model in LEAN_MODELS:       # 1200 variables: single-step histories over the cheap actions (all actions in thorough)
+        for a in M:
+            if a[0] == "adv" and (tier == "thorough" or a[2] in ("build", "degree", "solve-auto", "evaluate")):
+                yield (a,)
+        return
     for a in M:
         yield (a,)
     if tier == "quick":
         core = [x for x in M if x[0] == "flood" or (x[0] == "adv" and x[1] in ("same", "pvalue", "data", "view", "dense") and x[2] in ("compile", "roots", "solve-auto"))
-                or x == ("adv", "data", "solve-options")
+                or x == ("adv", "data", "solve-options") or x == ("shared", "data", "compile")
                 or x in (("reuse", "data", "gradient"), ("reuse", "pvalue", "degree"))]
         for a in core:
             for b in core:
